@@ -149,7 +149,9 @@ WRAPS = ["malloc", "calloc", "realloc", "free", "strdup",
          "_mpt_abort", "_ZdlPv", "_ZdlPvm", "_ZdaPv",
          # the type registry: entries live as long as the process (a world may book them to the process instead of the run)
          "mpt_type_traits", "mpt_interface_traits", "mpt_metatype_traits", "mpt_named_traits",
-         "mpt_type_add", "mpt_type_basic_add", "mpt_type_metatype_add", "mpt_type_interface_add"]
+         "mpt_type_add", "mpt_type_basic_add", "mpt_type_metatype_add", "mpt_type_interface_add",
+         # the C entry points libmpt++ overrides: per run the override or the C implementation (sim/kernel/cimpl_*.c)
+         "mpt_meta_buffer", "mpt_meta_new", "mpt_node_new"]
 
 
 def build_world(bdir, world, archives, variant, log):
